@@ -33,9 +33,90 @@ def cmdScan (args : List String) : String :=
         "tokens " ++ " ".intercalate (r.tokens.map showTok) ++ " diags " ++ " ".intercalate (r.diags.map showDiag)
   | _ => "bad-request"
 
+/-! ### alias store (C20) -/
+open DDP.TokenKey in
+def parseTypes (spec : String) : List (Nat × Bool × Nat) :=
+  if spec == "" || spec == "-" then [] else
+  (spec.splitOn ",").filterMap fun e =>
+    match e.splitOn ":" with
+    | [i, l, n] => some (i.toNat!, l == "1", n.toNat!)
+    | _ => none
+
+def typeName (tys : List (Nat × Bool × Nat)) (id : Nat) : Nat :=
+  ((tys.find? (·.1 == id)).map (·.2.2)).getD 0
+def typeIsList (tys : List (Nat × Bool × Nat)) (id : Nat) : Bool :=
+  ((tys.find? (·.1 == id)).map (·.2.1)).getD false
+
+open DDP.TokenKey in
+def parseKey (s : String) : Option TokKey :=
+  match s.toList with
+  | 'L' :: rest =>
+    match (String.ofList rest).splitOn "." with
+    | [c, r] =>
+      let cls : Option LitClass := match c with
+        | "id" => some .identifier | "sym" => some .symbol | "int" => some .int
+        | "float" => some .float | "str" => some .string | "chr" => some .char | _ => none
+      cls.map (fun c => .lit c r.toNat!)
+    | _ => none
+  | 'O' :: rest =>
+    let n := (String.ofList rest).toNat!
+    if h : isOtherTy n = true then some (.other n h) else none
+  | 'P' :: rest =>
+    match (String.ofList rest).splitOn "." with
+    | [r, i] => some (.param (r == "1") i.toNat!)
+    | _ => none
+  | _ => none
+
+def parseKeys (s : String) : List TokenKey.TokKey :=
+  if s == "" then [] else (s.splitOn ",").filterMap parseKey
+
+def b2s (b : Bool) : String := if b then "1" else "0"
+
+def cmdTokcmp (args : List String) : String :=
+  match args with
+  | [tys, a, b] =>
+    let t := parseTypes tys
+    match parseKey a, parseKey b with
+    | some a, some b =>
+      s!"eq={b2s (TokenKey.tokEq a b)} less={b2s (TokenKey.tokLess (typeName t) (typeIsList t) a b)}"
+    | _, _ => "bad-key"
+  | _ => "bad-request"
+
+def cmdTrie (args : List String) : String :=
+  let args := if args.length == 1 then args ++ [""] else args
+  match args with
+  | [tys, ops] =>
+    let t := parseTypes tys
+    let eq := TokenKey.tokEq
+    let less := TokenKey.tokLess (typeName t) (typeIsList t)
+    let step (st : Trie.Node TokenKey.TokKey Nat × List String) (op : String) : Trie.Node TokenKey.TokKey Nat × List String :=
+      let (n, out) := st
+      match op.toList with
+      | 'I' :: rest =>
+        match (String.ofList rest).splitOn "=" with
+        | [ks, v] => (Trie.insert eq less (parseKeys ks) v.toNat! n, out ++ ["ok"])
+        | _ => (n, out ++ ["bad-op"])
+      | 'C' :: rest =>
+        let r := match Trie.contains eq less (parseKeys (String.ofList rest)) n with
+          | (false, _) => "none"
+          | (true, none) => "novalue"
+          | (true, some v) => s!"some {v}"
+        (n, out ++ [r])
+      | 'S' :: rest =>
+        let r := match Trie.searchExact eq less (parseKeys (String.ofList rest)) n [] with
+          | .nilDeref => "nilderef"
+          | .values vs => "vals " ++ ",".intercalate (vs.map toString)
+        (n, out ++ [r])
+      | _ => (n, out)
+    let (_, out) := ((ops.splitOn ";").filter (· ≠ "")).foldl step (Trie.Node.empty, [])
+    ";".intercalate out
+  | _ => "bad-request"
+
 def dispatch (line : String) : String :=
   match (line.splitOn " ").filter (· ≠ "") with
   | "scan" :: args => cmdScan args
+  | "tokcmp" :: args => cmdTokcmp args
+  | "trie" :: args => cmdTrie args
   | _ => "bad-request"
 
 partial def loop (h : IO.FS.Stream) (out : IO.FS.Stream) : IO Unit := do
